@@ -13,6 +13,7 @@
 package c07
 
 import (
+	"errors"
 	"fmt"
 	"runtime"
 	"runtime/debug"
@@ -29,6 +30,8 @@ import (
 )
 
 const arrayIntervalMs = 10000
+
+var errBiz = errors.New("biz")
 
 type Interp struct {
 	clk       *vh.Clock
@@ -73,6 +76,10 @@ func (it *Interp) Reset() {
 func parseRules(toks []string) ([]*system.Rule, bool) {
 	rules := make([]*system.Rule, 0, len(toks))
 	for _, t := range toks {
+		if t == "nil" {
+			rules = append(rules, nil)
+			continue
+		}
 		p := strings.Split(t, "/")
 		if len(p) != 3 {
 			return nil, false
@@ -127,7 +134,7 @@ func (it *Interp) Step(t []string, op string) string {
 		}
 		i, err := strconv.Atoi(t[1])
 		nr, ok := parseRules(t[2:])
-		if err != nil || !ok || i < 0 || i >= len(it.lastRules) {
+		if err != nil || !ok || i < 0 || i >= len(it.lastRules) || it.lastRules[i] == nil || nr[0] == nil {
 			return "bad-op"
 		}
 		// only where it is a plain reload for the property: the object was in force and stays valid
@@ -140,6 +147,17 @@ func (it *Interp) Step(t []string, op string) string {
 	case "sys":
 		if len(t) != 3 {
 			return "bad-op"
+		}
+		if t[1] == "mem" {
+			m, err := strconv.ParseInt(t[2], 10, 64)
+			if err != nil {
+				return "bad-op"
+			}
+			system_metric.SetSystemMemoryUsage(m)
+			if system_metric.CurrentMemoryUsage() != m {
+				return "PANIC memory usage not stored"
+			}
+			return ""
 		}
 		f, ok := vh.ParseFBits(t[2])
 		if !ok {
@@ -190,21 +208,35 @@ func (it *Interp) Step(t []string, op string) string {
 		it.live[t[1]] = e
 		return "pass"
 	case "exit":
-		if len(t) != 2 || !it.started {
+		if !(len(t) == 2 || (len(t) == 3 && t[2] == "err")) || !it.started {
 			return "bad-op"
 		}
 		if e, ok := it.live[t[1]]; ok {
-			e.Exit()
+			if len(t) == 3 {
+				e.Exit(base.WithError(errBiz))
+			} else {
+				e.Exit()
+			}
 			delete(it.live, t[1])
 		}
 		return ""
+	case "rules":
+		if len(t) != 1 {
+			return "bad-op"
+		}
+		rs := system.GetRules()
+		xs := make([]string, 0, len(rs))
+		for _, r := range rs {
+			xs = append(xs, fmt.Sprintf("%d/%d/%s", uint32(r.MetricType), int32(r.Strategy), vh.FBits(r.TriggerCount)))
+		}
+		return vh.SortedList(xs)
 	case "stat":
 		if len(t) != 1 || !it.started {
 			return "bad-op"
 		}
 		n := stat.InboundNode()
-		return fmt.Sprintf("[p=%d b=%d c=%d conc=%d avgrt=%s minrt=%s qps=%s maxavg=%s]",
-			n.GetSum(base.MetricEventPass), n.GetSum(base.MetricEventBlock), n.GetSum(base.MetricEventComplete),
+		return fmt.Sprintf("[p=%d b=%d c=%d e=%d conc=%d avgrt=%s minrt=%s qps=%s maxavg=%s]",
+			n.GetSum(base.MetricEventPass), n.GetSum(base.MetricEventBlock), n.GetSum(base.MetricEventComplete), n.GetSum(base.MetricEventError),
 			n.CurrentConcurrency(), vh.FBits(n.AvgRT()), vh.FBits(n.MinRT()),
 			vh.FBits(n.GetQPS(base.MetricEventPass)), vh.FBits(n.GetMaxAvg(base.MetricEventComplete)))
 	}
